@@ -87,7 +87,7 @@ func inLayerEdges(upper, lower *graph.Layer) []*graph.Edge {
 	for _, n := range upper.Nodes {
 		n.VisitEdges(func(e *graph.Edge) {
 			// compare regardless of order
-			if bit(e.From.Layer, e.To.Layer) == bit(upper.Index, lower.Index) {
+			if sameLayerPair(e.From.Layer, e.To.Layer, upper.Index, lower.Index) {
 				es = append(es, e)
 			}
 		})
@@ -96,8 +96,10 @@ func inLayerEdges(upper, lower *graph.Layer) []*graph.Edge {
 	return es
 }
 
-func bit(a, b int) uint64 {
-	return (1 << a) | (1 << b)
+// reports whether {a,b} and {c,d} are the same unordered pair of layer indices;
+// this used to compare the bit masks 1<<a|1<<b, which are all zero for layer indices of 64 and above
+func sameLayerPair(a, b, c, d int) bool {
+	return (a == c && b == d) || (a == d && b == c)
 }
 
 // returns the layers as a tuple ordered by number of nodes
